@@ -589,6 +589,10 @@ class IdCheck:
                         return f
                     if o in (ast.Eq, ast.GtE):
                         return T.F_not(f)
+                    if o is ast.Gt:
+                        return ('const', False)          # a union is never larger than the sum of its parts
+                    if o is ast.LtE:
+                        return ('const', True)
         return None
 
     def _len_of(self, e, env, func):
@@ -1108,13 +1112,14 @@ def worklist_shape(f, p, wl):
         for x in ast.walk(st):
             if isinstance(x, ast.Call) and isinstance(x.func, ast.Attribute) and isinstance(x.func.value, ast.Name) and x.func.value.id == q and \
                     x.func.attr in ('extend', 'extendleft') and len(x.args) == 1 and _children_of(x.args[0], cur) is not None:
-                pushes.append(st)
+                pushes.append(x)
             elif isinstance(x, ast.AugAssign) and isinstance(x.target, ast.Name) and x.target.id == q and _children_of(x.value, cur) is not None:
-                pushes.append(st)
+                pushes.append(x)
     if not pushes:
         push = 'unknown' if any(_children_of(x, cur) is not None for st in wl.body for x in ast.walk(st) if isinstance(x, ast.expr)) else 'none'
         return dict(q=q, cur=cur, starts=starts, push=push, push_stmt=None, base=base)
-    push = 'all' if cfg.conditions(cfg.node_of(pushes[0])) == base else 'conditional'
+    pn = cfg.node_containing(pushes[0]) or cfg.node_of(pushes[0])
+    push = 'all' if pn is not None and cfg.conditions(pn) == base else 'conditional'
     return dict(q=q, cur=cur, starts=starts, push=push, push_stmt=pushes[0], base=base)
 
 
